@@ -58,7 +58,8 @@ ASSUMPTIONS = [
     "SP2 + padded batch + anion never returns (C03 finding): horizon trips there are excluded, not judged",
 ]
 
-ALPHABET = ["CH4", "H2O", "HF", "OH-", "NH4+", "H2CO", "C2H2"]
+# N2 (8 orbitals, 2 heavy atoms) collides with CH4 / NH4+ (8 orbitals, 1 heavy + 4 H) in every shortcut keyed on the orbital count
+ALPHABET = ["CH4", "H2O", "HF", "OH-", "NH4+", "H2CO", "C2H2", "N2"]
 ANIONS = {"OH-"}
 METHODS = ["AM1", "PM6_SP"]
 SOLVERS = ["adaptive", "pulay", "sp2"]
